@@ -246,10 +246,37 @@ def case_runner(plan: dict, conn) -> None:
             os._exit(0)
 
 
+def free_port_block(base: int, width: int = 40) -> int:
+    """Returns `base` if every TCP port of [base, base+width) can be bound right now, else the first later block (steps of 997,
+    wrapping inside 1100..32700) that can: two runs of a check at the same time (mutation probes, a sweep next to a thorough run),
+    or a foreign listener, must not make a fault-free cluster fail to start."""
+    import socket
+
+    def ok(b: int) -> bool:
+        for p in range(b, b + width):
+            s = socket.socket(socket.AF_INET, socket.SOCK_STREAM)
+            try:
+                s.bind(("", p))
+            except OSError:
+                return False
+            finally:
+                s.close()
+        return True
+
+    b = base
+    for _ in range(40):
+        if ok(b):
+            return b
+        b = 1100 + (b - 1100 + 997) % (32700 - width - 1100)
+    return base
+
+
 def run_plan(plan: dict, deadline_s: float) -> dict:
     """Runs one case; returns {'verdict': 'returned'|'raised'|'hang'|'harness-error', ...}."""
     import multiprocessing as mp
 
+    plan = dict(plan)
+    plan["port"] = free_port_block(plan["port"])
     ctx = mp.get_context("fork")
     pr, pw = ctx.Pipe(duplex=False)
     p = ctx.Process(target=case_runner, args=(plan, pw))
